@@ -23,6 +23,9 @@ updbdd = z3.Function("updbdd", Net, Name, Bdd)     # the BDD AEON builds for the
 # --- space / state helpers (macros, not uninterpreted)
 
 
+_KB = z3.Const("k!b", Name)   # fixed bound-variable name: equal macros yield syntactically equal formulas
+
+
 def ov(x, s):
     """state x overridden by the fixed values of space s"""
     k = z3.Const(fresh_name("k"), Name)
@@ -32,9 +35,6 @@ def ov(x, s):
 def in_space(x, s):
     k = z3.Const(fresh_name("k"), Name)
     return z3.ForAll([k], z3.Implies(s[k] >= 0, x[k] == (s[k] == 1)))
-
-
-_KB = z3.Const("k!b", Name)   # fixed bound-variable name: equal macros yield syntactically equal formulas
 
 
 def subspace(a, b):
@@ -56,8 +56,13 @@ def extends(big, small):
 
 
 def space_eq(a, b):
-    k = z3.Const(fresh_name("k"), Name)
-    return z3.ForAll([k], z3.If(a[k] >= 0, a[k], -1) == z3.If(b[k] >= 0, b[k], -1))
+    """dict equality of two spaces (the formula Python's == on BooleanSpace denotes)"""
+    return z3.ForAll([_KB], z3.If(a[_KB] >= 0, a[_KB], -1) == z3.If(b[_KB] >= 0, b[_KB], -1))
+
+
+def space_eq_is_identity(a, b):
+    """well-formed spaces that are equal as dicts are the same value (extensionality of the representation)"""
+    return z3.Implies(z3.And(space_eq(a, b), wf_space(a), wf_space(b)), a == b)
 
 
 def wf_space(s):
@@ -225,3 +230,36 @@ def vidx_facts(N):
     v, w = z3.Const("v!i", Name), z3.Const("w!i", Name)
     return z3.And(z3.ForAll([v], z3.Implies(isvar(N, v), vidx(N, v) >= 0)),
                   z3.ForAll([v, w], z3.Implies(z3.And(isvar(N, v), isvar(N, w), vidx(N, v) == vidx(N, w)), v == w)))
+
+
+# ---------------------------------------------------------------------- restriction of (opaque) Petri nets
+RestrictPN = z3.Function("RestrictPN", PNS, SpaceS, PNS)    # value of restrict_petrinet_to_subspace (graph-level contract in contracts/petri_net.py)
+EmptyPN = z3.Const("EmptyPN", PNS)                          # networkx.DiGraph()
+LEMMAS.update({
+    "L5.restrict_composes": "for T fixing at least what S fixes (T ⊑ S): RestrictPN(RestrictPN(p,S),T) = RestrictPN(p,T)   "
+                            "[consequence of the node/edge characterisation proved for restrict_petrinet_to_subspace: deletion sets only grow]",
+    "L5.restrict_encodes": "Encodes(p,N,{}) and S a trap space over vars(N)  ==>  Encodes(RestrictPN(p,S),N,S)   [cited; bounded validation (C10)]",
+    "L5.empty_encodes": "card(S) = nvars(N)  ==>  the empty net encodes N on S (no free variable)   [trivial]",
+})
+
+
+def lemma_restrict(p, N, S, parentS=None):
+    """instances of L5 for one node space S (and optionally the space of the node whose cached net is re-used)"""
+    E0 = z3.K(Name, z3.IntVal(-1))
+    cl = [z3.Implies(Encodes(p, N, E0), Encodes(RestrictPN(p, S), N, S))]
+    if parentS is not None:
+        cl.append(z3.Implies(subspace(S, parentS), RestrictPN(RestrictPN(p, parentS), S) == RestrictPN(p, S)))
+    return z3.And(cl)
+
+
+def map_union_l(S, l):
+    """the term of `[S | x for x in l]` (values of x win)"""
+    return ListSpace.mk(ListSpace.len(l), z3.Lambda([_CI], union(S, ListSpace.at(l)[_CI])))
+
+
+LEMMAS.update({
+    "L4+L5.min_traps_restricted": "p = RestrictPN(pn,S), Encodes(pn,N,{}), l enumerates TrapSol(p,min,fwd,{},no avoid,*)  ==>  [S | x for x in l] enumerates MinTrapSet(N,S)",
+    "L3.min_trap_facts": "M in MinTrapSet(N,S), S a Perc-closed trap space  ==>  M well-formed over vars(N), IsTrap, Perc(N,M) = M, M ⊑ S, M = S or M fixes strictly more than S, "
+                         "M = S only if it is the only element, and no trap space lies strictly inside M (NormSig(N,M,r) = empty)   [Lean: Trap.lean IsMinTrap.*, exists_minTrap]",
+    "def.SkipOK": "SkipOK(N,S,sig) holds when sig is the attachment signature of an enumeration of MinTrapSet(N,S) (definition; introduction rule with witness list)",
+})
